@@ -143,6 +143,10 @@ def _judge_dag(U, out, A, Imask, family, case, rec, key, chain_variants=(True,))
     if len(want) < len(mec):
         rec.count("imec:proper-subclass")
     ctx = {"dag": _gc.rows(out), "targets": sorted(I)}
+    if (sum(out) + 3 * Imask + p) % 4 == 1 or family == "chainI":
+        # history across routines: the caller first asked the *related* routines about the same graph and overwrote what he
+        # was given (his own arrays) - the answers judged below must not depend on that
+        _gc.scribble_related(U, A, rec, ("mec", "dag_to_cpdag", "chain_graph_MEC"))
     Iarg = (frozenset(I), set(I), set(I), set(np.int64(v) for v in I), set(I))[(Imask + p) % 5]    # numpy-integer members included
     if chain_variants == (True,) and (sum(out) + Imask) % 6 == 2:
         chain_variants = (True, False)
@@ -259,6 +263,7 @@ def judge(family, case, rec):
                     want.add(tuple(g))
             rec.case(family, case, 0 < len(I) < p, key=("chain", p, case["I"]))
             A = gmat.to_np(out, dtype=float)
+            _gc.scribble_related(U, A, rec, ("mec", "chain_graph_MEC"))
             for cc in (True, False):
                 try:
                     lst, got = _gc.result_set(U.imec(A, set(I), check_chain=cc) if (p + len(I)) % 2 else U.imec(A, set(I), cc))
